@@ -26,6 +26,9 @@ def get(name):
     elif name == "C18":
         from .engine_registry import RegistryEngine
         e = RegistryEngine()
+    elif name == "C19":
+        from .engine_profile import ProfileEngine
+        e = ProfileEngine()
     else:
         raise KeyError(name)
     _cache[name] = e
